@@ -34,6 +34,9 @@ STATEFUL = [
     "FOR EACH x IN l { REMOVE(l, 1) }\nDISPLAY(l)",
     "FOR EACH x IN l { APPEND(l, x)\nIF (LENGTH(l) > 8) { BREAK } }\nDISPLAY(l)",
     "l <- l\nDISPLAY(l)",
+    "l[3] <- REMOVE(l, 1)\nDISPLAY(l)",
+    "l2[LENGTH(l)] <- REMOVE(l, 2)\nDISPLAY(l)",
+    "l[1] <- REMOVE(l, 1) + REMOVE(l, 1) + REMOVE(l, 1)\nDISPLAY(l)",
     "a <- [1]\nb <- [2]\na <- b\nb <- a\nDISPLAY(a + b)",
     "MAP_INSERT(m, l, 1)\nDISPLAY(MAP_GET(m, [10, 20, 30]))",
     "MAP_INSERT(m, m, m)\nDISPLAY(MAP_CONTAINS_KEY(m, m))",
@@ -165,6 +168,9 @@ class PROP(PropCheck):
             c.meta["libm"] = es
 
     def model_expr(self, case):
+        if case.mods:
+            files = "; ".join("(%s, %s)" % (C.coq_text(k), C.coq_text(v)) for k, v in case.mods.items())
+            return "(run_obs_files %s [%s])" % (C.coq_text(case.src), files)
         if case.meta.get("libm"):
             return "(run_obs_libm %s %s)" % (C.coq_text(case.src), R.coq_libm_table(case.meta["libm"]))
         return "(run_obs %s)" % C.coq_text(case.src)
